@@ -23,6 +23,43 @@ BUDGET = {'quick': 900, 'thorough': 5400}
 NB3 = 8
 
 
+NAME_SCHEMES = {
+    'frozensets': lambda i: frozenset('xyz'[i]),            # pairwise incomparable under <
+    'mixed': lambda i: (0, 'mid', ('end', 1))[i],
+    'strings': lambda i: ('s', '', 'S ')[i],
+    'tuples': lambda i: (i, None),
+}
+ATOM_MAPS = [{'p': 'door open', 'q': 'door'}, {'p': 'S', 'q': 'L'}, {'p': 'True', 'q': 'p q'}, {'p': 'q', 'q': 'p'}]
+
+
+def rename_atoms(f, m):
+    if f[0] == 'ap':
+        return ('ap', m.get(f[1], f[1]))
+    if f[0] in ('t', 'f'):
+        return f
+    return (f[0],) + tuple(rename_atoms(x, m) for x in f[1:])
+
+
+def named_instances(k):
+    """(library structure, names, atom map) for every naming scheme x atom map; with the blank-containing
+    atom map every state that has q additionally carries the label 'open', so that the label sets
+    {'door','open'} and {'door open'} both occur."""
+    out = []
+    for scheme in sorted(NAME_SCHEMES):
+        names = [NAME_SCHEMES[scheme](i) for i in range(k.n)]
+        for m in ATOM_MAPS:
+            L = {}
+            for i in range(k.n):
+                labs = [m.get(a, a) for a in k.lab[i]]
+                if m['p'] == 'door open' and 'q' in k.lab[i]:
+                    labs.append('open')
+                L[names[i]] = labs
+            from pyModelChecking import Kripke
+            Kl = Kripke(S=names, R=[(names[i], names[j]) for i in range(k.n) for j in k.succ[i]], L=L)
+            out.append((Kl, names, m, scheme))
+    return out
+
+
 def scope(tier, seed):
     return {'A': 'all 148 labelled K(<=2) x all 1772 state formulas with <=2 nodes over {p,q,true,false}',
             'B': '82 representatives of K(<=2) x the 6510 state formulas with 3 nodes over {p,q}: '
@@ -33,6 +70,10 @@ def scope(tier, seed):
             'N': 'A/E over the 3-ary and/or path family on the 82 representatives',
             'NEG': 'A/E over %d negation-rich path formulas on the 82 representatives' % len(spaces.negated_path()),
             'EDIT': 'query / edit the same object / query histories on the 82 representatives',
+            'NAMES': 'representatives x 4 state-naming schemes x 4 atom renamings (blanks, capitals, constant '
+                     'look-alikes) x a third of the state formulas with <=2 nodes',
+            'MED': '40 structures with 5-7 states x quantified formulas with <=2 nodes (half), the 26 special '
+                   'shapes, A/E over depth-3 towers',
             'S': 'selected formulas with 4-5 nodes (3 temporal operators per quantifier, nesting 2)'}
 
 
@@ -59,6 +100,10 @@ def plan(tier, seed):
         sh.append(['EDIT', lo, hi])
     for lo, hi in chunks(82, 4):
         sh.append(['S0', lo, hi])
+    for i in range(40):
+        sh.append(['MED', i])
+    for lo, hi in chunks(82, 4):
+        sh.append(['NAMES', lo, hi])
     return sh
 
 
@@ -203,6 +248,38 @@ def run_shard(shard, tier, seed, acc):
                     acc.violation('structure-modified', kcase(k, f))
                     Kl = lib.to_kripke(k)
         return
+    if kind == 'NAMES':
+        forms = [f for s_ in (0, 1, 2) for f in spaces.ctls_state_by_size(s_, spaces.LEAVES2)][(seed % 3)::3]
+        for k in (spaces.kripke_reps(1) + spaces.kripke_reps(2))[shard[1]:shard[2]] + spaces.kripke_reps(3)[shard[1] * 11::450]:
+            sem = Sem(k)
+            for Kl, names, m, scheme in named_instances(k):
+                inv = dict((repr(x), i) for i, x in enumerate(names))
+                for f in forms:
+                    ref = sem.sat(f)
+                    r = call(lib.CTLS.modelcheck, Kl, lib.build(rename_atoms(f, m), lib.CTLS))
+                    acc.ev(1, 1 if 0 < len(ref) < k.n else 0)
+                    got = None
+                    if r[0] == 'ok':
+                        try:
+                            got = frozenset(inv[repr(x)] for x in r[1])
+                        except Exception:
+                            got = None
+                    if got != ref:
+                        acc.violation('wrong-answer', kcase(k, f, names=scheme, atom_map=m), sorted(ref),
+                                      r[1:] if r[0] != 'ok' else sorted(map(repr, r[1])))
+        return
+    if kind == 'MED':
+        k = spaces.medium_kripkes(seed)[shard[1]]
+        Kl = lib.to_kripke(k)
+        forms = [f for s_ in (1, 2) for f in spaces.ctls_state_by_size(s_, spaces.LEAVES2) if has_quant(f)][(seed % 2)::2]
+        forms += special_forms() + [(q, g) for g in spaces.path_towers(3)[(seed % 4)::4] for q in 'AE']
+        for j, f in enumerate(forms):
+            if j % 32 == 0 and deadline_passed():
+                acc.capped()
+                return
+            check_one(k, Kl, f, acc)
+        acc.sample({'k': k.to_json(), 'formulas': 'quantified state formulas <=2 nodes, special shapes, towers'})
+        return
     if kind == 'S0':
         forms = [f for s_ in (0, 1, 2) for f in spaces.ctls_state_by_size(s_, spaces.LEAVES2)]
         for k in ((spaces.kripke_reps(1) + spaces.kripke_reps(2))[shard[1]:shard[2]] + spaces.kripke_reps(3, ('p',))[shard[1]::82]):
@@ -278,6 +355,20 @@ def replay(art):
                 call(lib.CTLS.modelcheck, Kl, lib.build(f, lib.CTLS))
         return {'violates': lib.snapshot_kripke(Kl) != snap}
     f = spaces.from_jsonable(case['f'])
+    if case.get('atom_map') is not None:
+        sem = Sem(k)
+        for Kl2, names, m, scheme in named_instances(k):
+            if scheme == case['names'] and m == case['atom_map']:
+                inv = dict((repr(x), i) for i, x in enumerate(names))
+                r = call(lib.CTLS.modelcheck, Kl2, lib.build(rename_atoms(f, m), lib.CTLS))
+                got = None
+                if r[0] == 'ok':
+                    try:
+                        got = frozenset(inv[repr(x)] for x in r[1])
+                    except Exception:
+                        got = None
+                return {'violates': got != sem.sat(f), 'expected': sorted(sem.sat(f)), 'got': r[1:] if r[0] != 'ok' else sorted(map(repr, r[1]))}
+        return {'violates': False}
     if art['kind'] == 'wrong-answer-after-edit':
         edit = tuple(case['edit'])
         k2 = [x for e, x in spaces.k_edits(k) if list(e) == list(edit)][0]
